@@ -28,7 +28,11 @@ Readings fixed where the document is silent (each is what lian's analyses assume
 * `assign_stmt`  target = operand [operator operand2] on already evaluated operands.  `and`/`or`
   are ordinary *strict* binary operators (`a and b` = `b` if `a` is truthy else `a`): the frontend,
   not the instruction, is responsible for short-circuiting.
-* `variable_decl` declares the name in the *current function frame* (no value yet).  Assignment
+* `variable_decl` declares the name in the *current function frame* (no value yet); a declaration
+  is in force for the WHOLE body of the function it occurs in, wherever it stands in that body (this
+  is how lian's scope analysis reads it, and the frontends do place a `variable_decl` after the
+  statement that first assigns the variable): calling a function declares all names its body
+  declares (`declsL`) before the first statement runs.  Assignment
   to `x` writes the nearest frame of the environment chain (innermost first) that declares `x`; if
   none does, `x` is created in the current frame (temporaries `%vvN`).  `global_stmt x` makes the
   current frame resolve `x` in the unit frame, `nonlocal_stmt x` in the nearest *enclosing* frame
@@ -55,6 +59,19 @@ Readings fixed where the document is silent (each is what lian's analyses assume
 
 Outside the data fragment (error `unsupported:…`): try/with/switch/yield/goto, packed (`*`/`**`)
 arguments and parameters, floats, nested classes.
+
+Dialect spellings used by the non-Python frontends (added for C02; none changes the meaning of a
+row the Python frontend emits):
+* operators `&&`, `||` (= `and`, `or`: strict, on already evaluated operands) and `!` (= `not`);
+* `new_object{target, data_type?, positional_args?}`: if `data_type` names a class the class is
+  instantiated (as by calling it); otherwise (JavaScript object literal, unknown type) a fresh empty
+  field map is allocated.  `field_read`/`field_write` address such a field map by field name, and
+  an ARRAY by a decimal field name (`a.0` is `a[0]`, writing at `length` appends: JavaScript and PHP
+  build array literals this way);
+* `expression_stmt`, `package_stmt`, type declarations: no effect on data;
+* a `class_decl` whose methods carry the attribute `static` (Java) also binds each static method by
+  its simple name in the scope that declares the class (`classWithStatics`), which is how an
+  unqualified call inside the class resolves.
 -/
 
 namespace LianVerif.Gir
@@ -139,6 +156,8 @@ inductive Stmt where
   | fieldWrite (recv : Opd) (field : String) (src : Opd)
   | sliceRead (target : String) (arr : Opd) (start stop step : Option Opd)
   | sliceWrite (arr src : Opd) (start stop step : Option Opd)
+  /-- `new_object`: `cls` = the `data_type` token (absent for an object literal). -/
+  | newObject (target : String) (cls : Option Opd) (args : List Opd)
   | unsupported (op : String)
   deriving Repr, Inhabited
 
@@ -454,8 +473,8 @@ def allocH (h : List Obj) (o : Obj) : Val × List Obj := (.ref h.length, h ++ [o
 /-- binary operator on evaluated operands, as a function of the object heap only; returns the value
 and the (possibly extended: list/tuple concatenation and repetition allocate) heap. -/
 def binopH (h : List Obj) (op : String) (a b : Val) : Res (Val × List Obj) :=
-  if op == "and" then .ok (if truthyH h a then b else a, h)
-  else if op == "or" then .ok (if truthyH h a then a else b, h)
+  if op == "and" || op == "&&" then .ok (if truthyH h a then b else a, h)
+  else if op == "or" || op == "||" then .ok (if truthyH h a then a else b, h)
   else if op == "==" then .ok (.bool (valEq h 32 a b), h)
   else if op == "!=" then .ok (.bool (!valEq h 32 a b), h)
   else if op == "is" then .ok (.bool (valIs a b), h)
@@ -533,7 +552,7 @@ def binopH (h : List Obj) (op : String) (a b : Val) : Res (Val × List Obj) :=
       | _, _ => .error ("raise:TypeError:" ++ op)
 
 def unopH (h : List Obj) (op : String) (a : Val) : Res Val :=
-  if op == "not" then .ok (.bool (!truthyH h a))
+  if op == "not" || op == "!" then .ok (.bool (!truthyH h a))
   else
     match asInt? a with
     | some x =>
@@ -765,6 +784,17 @@ def State.getAttr (σ : State) (recv : Val) (field : String) : Res (Val × Optio
       match classAttr σ.heap 16 a field with
       | some v => .ok (v, none)
       | none => .error ("raise:AttributeError:" ++ field)
+    | some (.dict kvs) =>
+      match dictGet σ kvs (.str field) with
+      | some v => .ok (v, none)
+      | none => .error ("raise:AttributeError:" ++ field)
+    | some (.list xs) =>
+      match field.toNat? with
+      | some n =>
+        match xs[n]? with
+        | some v => .ok (v, none)
+        | none => .error "raise:IndexError"
+      | none => .error ("raise:AttributeError:" ++ field)
     | _ => .error ("raise:AttributeError:" ++ field)
   | _ => .error ("raise:AttributeError:" ++ field)
 
@@ -774,6 +804,14 @@ def State.setAttr (σ : State) (recv : Val) (field : String) (v : Val) : Res Sta
     match σ.obj a with
     | some (.inst c attrs) => .ok (σ.setObj a (.inst c (alSet attrs field v)))
     | some (.cls n s attrs) => .ok (σ.setObj a (.cls n s (alSet attrs field v)))
+    | some (.dict kvs) => .ok (σ.setObj a (.dict (dictSet σ kvs (.str field) v)))
+    | some (.list xs) =>
+      match field.toNat? with
+      | some n =>
+        if n == xs.length then .ok (σ.setObj a (.list (xs ++ [v])))
+        else if n < xs.length then .ok (σ.setObj a (.list (xs.set n v)))
+        else .error "raise:IndexError"
+      | none => .error ("raise:AttributeError:" ++ field)
     | _ => .error ("raise:AttributeError:" ++ field)
   | _ => .error ("raise:AttributeError:" ++ field)
 
@@ -961,6 +999,30 @@ def State.bindParams (σ : State) (cenv : List Nat) (ps : List Param) (args : Li
     | .error e => .error e
     | .ok b2 => σ.bindDefaults cenv b2 ps
 
+mutual
+/-- names declared by the `variable_decl`s of one function body (nested blocks included; bodies of
+nested method / class declarations are functions of their own). -/
+def declsS : Stmt → List String
+  | .varDecl x => [x]
+  | .ifS _ t e => declsL t ++ declsL e
+  | .loop _ pre b u e => declsL pre ++ declsL b ++ declsL u ++ declsL e
+  | .forin _ _ b => declsL b
+  | .forinIter _ _ _ b => declsL b
+  | .block b => declsL b
+  | _ => []
+
+def declsL : List Stmt → List String
+  | [] => []
+  | s :: rest => declsS s ++ declsL rest
+end
+
+/-- the frame slots of the declared names that are not bound yet (`none` = declared, no value). -/
+def declSlots (bound : List (String × Option Val)) : List String → List (String × Option Val)
+  | [] => []
+  | x :: rest =>
+    if alHas bound x then declSlots bound rest
+    else (x, none) :: declSlots ((x, none) :: bound) rest
+
 abbrev Runner := State → List Stmt → Outcome × State
 
 /-- run a closure: new frame (extra bindings `pre`, then parameters) on top of the closure's chain. -/
@@ -969,7 +1031,8 @@ def invokeClosure (run : Runner) (σ : State) (ps : List Param) (body : List Stm
   match σ.bindParams cenv ps args named with
   | .error e => (.error e, σ)
   | .ok vars =>
-    let (fa, σ1) := σ.allocFrame { vars := (pre ++ vars).map (fun p => (p.1, some p.2)) }
+    let bound : List (String × Option Val) := (pre ++ vars).map (fun p => (p.1, some p.2))
+    let (fa, σ1) := σ.allocFrame { vars := bound ++ declSlots bound (declsL body) }
     let saved := σ.env
     match run { σ1 with env := fa :: cenv } body with
     | (.ret v, σ2) => (.ok v, { σ2 with env := saved })
@@ -1224,6 +1287,33 @@ def exec : Nat → State → List Stmt → Outcome × State
       | .error e, _, _ => (.err e, σ)
       | _, .error e, _ => (.err e, σ)
       | _, _, .error e => (.err e, σ)
+    | .newObject t cls args =>
+      match σ.evalOpds args with
+      | .error e => (.err e, σ)
+      | .ok avs =>
+        let clsVal : Option Val :=
+          match cls with
+          | none => none
+          | some c =>
+            match σ.evalOpd c with
+            | .ok (.ref a) =>
+              match σ.obj a with
+              | some (.cls _ _ _) => some (.ref a)
+              | _ => none
+            | _ => none
+        match clsVal with
+        | some cv =>
+          match invoke (exec fuel) σ cv none avs [] with
+          | (.ok v, σ1) =>
+            match σ1.assign t v with
+            | .ok σ2 => exec fuel σ2 rest
+            | .error e => (.err e, σ1)
+          | (.error e, σ1) => (.err e, σ1)
+        | none =>
+          let (r, σ1) := σ.alloc (.dict [])
+          match σ1.assign t (.ref r) with
+          | .ok σ2 => exec fuel σ2 rest
+          | .error e => (.err e, σ1)
     | .classDecl name supers methods =>
       match σ.evalOpds supers with
       | .error e => (.err e, σ)
@@ -1250,6 +1340,11 @@ def exec : Nat → State → List Stmt → Outcome × State
       | some (.ok σ') => exec fuel σ' rest
       | some (.error e) => (.err e, σ)
       | none => (.err "malformed:statement", σ)
+
+/-- reading of `static` methods (Java): the class declaration, then each static method bound by its
+simple name in the declaring scope. -/
+def classWithStatics (name : String) (supers : List Opd) (methods : List Stmt) (statics : List String) : Stmt :=
+  .block (.classDecl name supers methods :: statics.map (fun m => .fieldRead m (.var name) m))
 
 /-! ## Running a unit -/
 
